@@ -232,13 +232,40 @@ def check(an: Analysis) -> None:
             for c in calls_to(an, f, callee):
                 ob.inst(f, c)
                 cp = param_positions(prog.functions[callee])
-                for i in range(3):
-                    a = arg_for(c, i, cp[i] if i < len(cp) else None)
-                    if not is_name(a, own[i]):
-                        ob.fail(f, c, f"cleanup receives {stmt_text(a) if a is not None else 'nothing'} instead of {own[i]} for parameter {cp[i] if i < len(cp) else i}")
+                problem = exc_triple_problem(an, f, c, cp, own)
+                if problem:
+                    ob.fail(f, c, "cleanup " + problem)
 
     # ------------------------------------------------------------------ C02.8 a failed enter leaves no metrics scope bound / open
     _borrowed(an)
+
+
+def exc_triple_problem(an: Analysis, f: FunctionInfo, c: ast.Call, callee_params: list[str], own: list[str]) -> str | None:
+    """(exc_type, exc_val, exc_tb) handed to a cleanup step are either the function's own three parameters, or - for a
+    call made while handling a failure of an earlier step - the triple of the caught exception
+    (type(exc), exc, exc.__traceback__).  Returns a description of what is wrong, or None."""
+    from ..astutil import unwrap
+    from ..loader import within
+
+    args = [arg_for(c, i, callee_params[i] if i < len(callee_params) else None) for i in range(3)]
+    if all(is_name(a, own[i]) for i, a in enumerate(args)):
+        return None
+    d = Deps(an.prog, f)
+
+    def res(a: ast.AST | None) -> ast.AST | None:
+        a = unwrap(a) if a is not None else None
+        if isinstance(a, ast.Name) and (sv := d.single_value(a.id)) is not None:
+            return unwrap(sv)
+        return a
+
+    for h in [h for h in f.own_nodes() if isinstance(h, ast.ExceptHandler) and h.name and within(c, h)]:
+        t, v, tb = (res(a) for a in args)
+        if isinstance(t, ast.Call) and is_name(t.func, "type") and len(t.args) == 1 and is_name(t.args[0], h.name) and is_name(v, h.name) and isinstance(tb, ast.Attribute) and tb.attr == "__traceback__" and is_name(tb.value, h.name):
+            return None
+    for i, a in enumerate(args):
+        if not is_name(a, own[i]):
+            return f"receives {stmt_text(a) if a is not None else 'nothing'} instead of {own[i]} for parameter {callee_params[i] if i < len(callee_params) else i}"
+    return None
 
 
 def _borrowed(an: Analysis) -> None:
